@@ -167,15 +167,32 @@ pub fn prim_upgrade(wk: &Weak<Node>, target: Option<Oid>, top_level: bool) -> Op
                         "upgrade-none-on-live/{}/target-mark={}/flags={}{}{}/plain-drop-below={}",
                         fk_str(ctx, top_level), mark, flags.0 as u8, flags.1 as u8, flags.2 as u8, plain_below as u8
                     );
-                    if top_level || !(flags.2 && mark >= 2) {
-                        // nothing can excuse this one
-                        let d = format!("upgrade returned None for live obj{} (shadow strong {})", t, strong);
-                        w.violation(&["C08"], "upgrade-none-on-live", sig, d, false);
+                    // Is the collector (or Cc::drop) running destructors of a batch right now? Then a
+                    // target sitting in a collector list is itself being destroyed: None is right,
+                    // provided its own destructor does follow (resolved at the end of the call).
+                    let in_dealloc_batch = w.frames.iter().any(|f| match f.kind {
+                        Fk::Drop => f.in_batch,
+                        Fk::Action => {
+                            let o = &w.objs[f.oid as usize];
+                            o.dropped && o.drop_in_collector
+                        }
+                        _ => false,
+                    });
+                    let sig = if !top_level && !in_dealloc_batch && mark >= 2 && flags.2 {
+                        // the KF1 class (DESIGN.md section 4): the `dropping` flag stems from a plain
+                        // Cc::drop, the target merely sits in a list of a collection that is not
+                        // deallocating
+                        "upgrade-none-on-live/target-in-collector-list/dropping-flag-not-from-deallocation".to_string()
                     } else {
-                        // target is in a collector list while destructors run: legitimate iff the
-                        // target is itself destroyed in this batch; resolved at the end of the call
+                        sig
+                    };
+                    if !top_level && in_dealloc_batch && mark >= 2 {
                         let (call, ev) = (w.call, w.ev);
                         w.attempts.push(Attempt { target: t, ctx, sig, call, ev });
+                    } else {
+                        // nothing can excuse this one (known findings are classified by signature)
+                        let d = format!("upgrade returned None for live obj{} (shadow strong {})", t, strong);
+                        w.violation(&["C08"], "upgrade-none-on-live", sig, d, false);
                     }
                 }
             }
